@@ -141,7 +141,7 @@ def vec_len(spec, vec):
     if vec[0] in ("vscale", "vshift", "vpow"):
         return vec_len(spec, vec[1])
     if vec[0] == "matvec":
-        return len(vec[1])
+        return len(coef_values(spec, vec[1]))
     if vec[0] in ("vfn", "vrsub", "vrdiv"):
         return vec_len(spec, vec[2])
     if vec[0] == "mvprod":
@@ -262,7 +262,7 @@ _SHARED_Q = {}
 class Model:
     """Real optyx objects for one spec."""
 
-    __slots__ = ("spec", "vars", "params", "elems", "exprs", "cons", "problem", "handles", "last_values", "views")
+    __slots__ = ("spec", "vars", "params", "elems", "exprs", "cons", "problem", "handles", "last_values", "views", "buffers")
 
     def __init__(self):
         self.vars = {}
@@ -274,6 +274,7 @@ class Model:
         self.handles = {}
         self.last_values = None
         self.views = {}
+        self.buffers = {}
 
 
 def build_model(spec, params_as_constants=False):
@@ -341,6 +342,24 @@ def build_model(spec, params_as_constants=False):
     return m
 
 
+def _coef(m, c):
+    """A coefficient array of the model: a literal list (a fresh array), or "@name": ONE array object
+    of the user's (spec["buffers"][name]) that several expressions may share and that the user may
+    overwrite in place later (op buffer_write).  The model means the numbers it was BUILT with."""
+    import numpy as np
+
+    if isinstance(c, str):
+        name = c[1:]
+        if name not in m.buffers:
+            m.buffers[name] = np.array(m.spec["buffers"][name], dtype=float)
+        return m.buffers[name]
+    return np.array(c, dtype=float)
+
+
+def coef_values(spec, c):
+    return spec["buffers"][c[1:]] if isinstance(c, str) else c
+
+
 def build_vec(m, vec):
     if m.spec.get("share_views"):
         # the user names a view once (r = x[::-1]) and reuses that object everywhere
@@ -389,7 +408,7 @@ def _build_vec(m, vec):
         from optyx.core.vectors import VectorVariable
 
         inner = build_vec(m, vec[2])
-        A = np.array(vec[1], dtype=float)
+        A = _coef(m, vec[1])
         return A @ inner if isinstance(inner, VectorVariable) else ox.matmul(A, inner)
     if t == "vfn":
         import optyx as ox
@@ -479,12 +498,12 @@ def build_expr(m, e):
     if t == "msum":
         return m.vars[e[1]].sum()  # MatrixSum: evaluates, but has no compiler case
     if t == "lincomb":
-        return np.array(e[1], dtype=float) @ build_vec(m, e[2])
+        return _coef(m, e[1]) @ build_vec(m, e[2])
     if t == "dot":
         return build_vec(m, e[1]).dot(build_vec(m, e[2]))
     if t == "quad":
         v = build_vec(m, e[1])
-        Q = np.array(e[2], dtype=float)
+        Q = _coef(m, e[2])
         tag = m.spec.get("shared_q")
         if tag:
             # the user keeps ONE preallocated matrix buffer and overwrites it in place for every new
@@ -506,7 +525,7 @@ def build_expr(m, e):
 
         return _norm(v, e[2])
     if t == "qform":
-        return ox.quadratic_form(build_vec(m, e[1]), np.array(e[2], dtype=float))
+        return ox.quadratic_form(build_vec(m, e[1]), _coef(m, e[2]))
     if t == "trace":
         return ox.trace(m.vars[e[1]])
     if t == "frob":
@@ -658,7 +677,7 @@ def eval_vec(spec, vec, pt, pv=None):
         return [x + vec[2] for x in eval_vec(spec, vec[1], pt, pv)]
     if t == "matvec":
         v = eval_vec(spec, vec[2], pt, pv)
-        return [sum(a * x for a, x in zip(row, v)) for row in vec[1]]
+        return [sum(a * x for a, x in zip(row, v)) for row in coef_values(spec, vec[1])]
     if t == "vfn":
         return [_FN[vec[1]](x) for x in eval_vec(spec, vec[2], pt, pv)]
     if t == "vpow":
@@ -711,12 +730,13 @@ def eval_expr(spec, e, pt, pv=None):
         d = var_decl(spec, e[1])
         return sum(pt[mel_name(d, i, j)] for i in range(d["rows"]) for j in range(d["cols"]))
     if t == "lincomb":
-        return sum(c * x for c, x in zip(e[1], eval_vec(spec, e[2], pt, pv)))
+        return sum(c * x for c, x in zip(coef_values(spec, e[1]), eval_vec(spec, e[2], pt, pv)))
     if t == "dot":
         return sum(a * b for a, b in zip(eval_vec(spec, e[1], pt, pv), eval_vec(spec, e[2], pt, pv)))
     if t in ("quad", "qform"):
         v = eval_vec(spec, e[1], pt, pv)
-        return sum(v[i] * e[2][i][j] * v[j] for i in range(len(v)) for j in range(len(v)))
+        Q = coef_values(spec, e[2])
+        return sum(v[i] * Q[i][j] * v[j] for i in range(len(v)) for j in range(len(v)))
     if t == "trace":
         d = var_decl(spec, e[1])
         return sum(pt[mel_name(d, i, i)] for i in range(d["rows"]))
